@@ -92,14 +92,17 @@ theorem findSome?_find? {α} (xs : List α) (p : α → Bool) :
   | cons x xs ih => by_cases hp : p x <;> simp [List.findSome?_cons, List.find?_cons, hp, ih]
 
 /-- the host name `GetCookieDomain` matches against, with `net.SplitHostPort` as a parameter -/
-def hostNameWith (E : Go.Ext) : Str :=
-  match E.splitHostPortStd E.reqHost with
+def hostNameWith (E : Go.Ext) (host : Str) : Str :=
+  match E.splitHostPortStd host with
   | some (h, _) => h
-  | none => E.reqHost
+  | none => host
 
-theorem GetCookieDomain_eq (E : Go.Ext) (domains : List Str) :
-    Gen.Tr.GetCookieDomain E domains
-      = .ok ((domains.find? (fun d => hasSuffix d (hostNameWith E))).getD []) := by
+/-- `GetCookieDomain`, given what the regenerated `GetRequestHost` answers for the request
+    (`O2P.TrReq.GetRequestHost_eq` says what that is) -/
+theorem GetCookieDomain_eq (E : Go.Ext) (req : Go.Req) (host : Str) (domains : List Str)
+    (hreq : Gen.Tr.GetRequestHost E req = .ok host) :
+    Gen.Tr.GetCookieDomain E req domains
+      = .ok ((domains.find? (fun d => hasSuffix d (hostNameWith E host))).getD []) := by
   unfold Gen.Tr.GetCookieDomain
   have hloop := fun (H : Str) => forRange_ok domains
     (fun domain => do
@@ -108,15 +111,15 @@ theorem GetCookieDomain_eq (E : Go.Ext) (domains : List Str) :
       return none)
     (fun d => if hasSuffix d H then some d else none)
     (fun d _ => by by_cases h : hasSuffix d H = true <;> simp [Go.stringsHasSuffix, h, pure, Except.pure])
-  simp only [Go.netSplitHostPort, hostNameWith]
-  obtain ⟨rs, hsp⟩ : ∃ rs, E.splitHostPortStd E.reqHost = rs := ⟨_, rfl⟩
+  simp only [hreq, bind, Except.bind, Go.netSplitHostPort, hostNameWith]
+  obtain ⟨rs, hsp⟩ : ∃ rs, E.splitHostPortStd host = rs := ⟨_, rfl⟩
   simp only [hsp]
   cases rs with
   | none =>
-    have := hloop E.reqHost
+    have := hloop host
     simp [bind, Except.bind, pure, Except.pure, findSome?_find?] at this ⊢
     rw [this]
-    cases domains.find? (fun d => hasSuffix d E.reqHost) <;> rfl
+    cases domains.find? (fun d => hasSuffix d host) <;> rfl
   | some hp =>
     obtain ⟨h, p⟩ := hp
     have := hloop h
@@ -125,13 +128,14 @@ theorem GetCookieDomain_eq (E : Go.Ext) (domains : List Str) :
     cases domains.find? (fun d => hasSuffix d h) <;> rfl
 
 /-- with the model of `net.SplitHostPort` plugged in: the model's `getCookieDomain` -/
-theorem GetCookieDomain_model (E : Go.Ext) (domains : List Str)
+theorem GetCookieDomain_model (E : Go.Ext) (req : Go.Req) (host : Str) (domains : List Str)
+    (hreq : Gen.Tr.GetRequestHost E req = .ok host)
     (hE : E.splitHostPortStd = Ck.splitHostPortGo) :
-    Gen.Tr.GetCookieDomain E domains = .ok ((Ck.getCookieDomain domains E.reqHost).getD []) := by
-  rw [GetCookieDomain_eq]
+    Gen.Tr.GetCookieDomain E req domains = .ok ((Ck.getCookieDomain domains host).getD []) := by
+  rw [GetCookieDomain_eq E req host domains hreq]
   unfold hostNameWith Ck.getCookieDomain Ck.hostName
   rw [hE]
-  cases Ck.splitHostPortGo E.reqHost with
+  cases Ck.splitHostPortGo host with
   | none => rfl
   | some hp => rfl
 
